@@ -143,6 +143,7 @@ package paillier
 //@   nopanic[C05]
 //@   requires ct != nil && ctA != nil
 //@   modifies nothing
+//@   ensures[C12,C10] result == (natval(ct.c) == natval(ctA.c))
 
 //@ func (Ciphertext).Clone
 //@   nopanic[C05]
